@@ -97,6 +97,30 @@ def _explore(out, tier, seed, facts, replay):
                 nf += 1
                 if not datatie.compare_cols(p1, p2):
                     out.violation("climatology-touches-other-field", "pit differs with -c", {"dataset": ds, "request": [k, ax, ai]})
+        # the climatology is not one of the verified files: titles (-leg) are given for the verified files only
+        import verif.data
+        try:
+            ins_ = [datagen.mem_input(s_, "in%d" % i_) for i_, s_ in enumerate(ds["inputs"])]
+            titles = ["Title %d" % i_ for i_ in range(len(ins_))]
+            kw_ = {"clim": datagen.mem_input(clim, "clim"), "clim_type": "divide" if divide else "subtract", "legend": titles}
+            nf += 1
+            try:
+                dl = verif.data.Data(ins_, **kw_)
+                if list(dl.get_legend()) != titles:
+                    out.violation("legend-with-climatology", "with a climatology, get_legend() returns %r for the titles %r" % (list(dl.get_legend()), titles),
+                                  {"dataset": ds, "titles": titles})
+            except datagen.ImplExit as e:
+                out.violation("legend-with-climatology", "one title per verified file (%r) is refused when a climatology is given: %s" % (titles, e),
+                              {"dataset": ds, "titles": titles})
+            try:
+                verif.data.Data([datagen.mem_input(s_, "in%d" % i_) for i_, s_ in enumerate(ds["inputs"])],
+                                **dict(kw_, clim=datagen.mem_input(clim, "clim"), legend=titles + ["Climatology"]))
+                out.violation("legend-with-climatology", "a legend with an extra title for the climatology (%r) is accepted" % (titles + ["Climatology"],),
+                              {"dataset": ds, "titles": titles + ["Climatology"]})
+            except datagen.ImplExit:
+                pass
+        except Exception as e:
+            out.violation("legend-with-climatology-exception", "Data(..., clim=, legend=) raised %r" % (e,), {"dataset": ds})
         if len(samples) < 2:
             samples.append({"n_inputs": ninp, "divide": bool(divide)})
     stats.update({
